@@ -243,6 +243,29 @@ func VerifC05OtherFile() {
 		}
 		return
 	}
+	if present && vrtChoice("twoFilesSameNames", 2) == 1 {
+		// main:a -> f1:x -> f1:y -> f2:x -> f2:y : the two other files use the same service names; no cycle
+		f2Abs := oAbs + "/f2"
+		vrtYamlFile(f2Abs+"/compose.yaml", map[string]any{"services": map[string]any{
+			"x": map[string]any{"extends": map[string]any{"service": "y"}, "hostname": "f2x"},
+			"y": map[string]any{"image": "deep", "build": map[string]any{"context": "./d"}}}})
+		vrtYamlFile(oAbs+"/compose.yaml", map[string]any{"services": map[string]any{
+			"x": map[string]any{"extends": map[string]any{"service": "y"}, "user": "f1x"},
+			"y": map[string]any{"extends": map[string]any{"file": "f2/compose.yaml", "service": "x"}, "domainname": "f1y"}}})
+		m, err := tcLoad(nil, nil, map[string]any{"services": map[string]any{"a": map[string]any{"extends": map[string]any{"file": oRel + "/compose.yaml", "service": "x"}}}})
+		vrtObserve("err", err != nil)
+		if err != nil {
+			vrtObserve("msg", err.Error())
+		}
+		vrtAssert("acyclic-chain-over-homonymous-files-loads", err == nil)
+		if err == nil {
+			s := tcSvc(m, "a")
+			vrtAssert("long-chain-values", s["image"] == any("deep") && s["hostname"] == any("f2x") && s["user"] == any("f1x") && s["domainname"] == any("f1y"))
+			b, _ := s["build"].(map[string]any)
+			vrtAssert("long-chain-path-anchored-at-last-file", b["context"] == any(f2Abs+"/d"))
+		}
+		return
+	}
 	if present && vrtChoice("backReference", 2) == 1 {
 		// main:app -> other:app -> main:shared : the chain comes back to the first file without being a cycle;
 		// the other file has a homonymous `shared` that must not be picked
